@@ -251,3 +251,308 @@ Proof. intros [|]; eexists; split; reflexivity. Qed.
 
 Lemma render_other : render COther = Error ErrValue.
 Proof. reflexivity. Qed.
+
+(* ---------- floats: Python's repr grammar is inside the C++ floating-literal grammar ---------- *)
+Fixpoint all_s (p : ascii -> bool) (s : string) : bool :=
+  match s with EmptyString => true | String c r => p c && all_s p r end.
+
+Lemma all_s_app : forall p (a b : string), all_s p (a +++ b) = all_s p a && all_s p b.
+Proof. induction a as [|c a IH]; intros b; simpl; [reflexivity | rewrite IH; now rewrite andb_assoc]. Qed.
+
+Lemma all_s_impl : forall (p q : ascii -> bool) (s : string),
+  (forall c, p c = true -> q c = true) -> all_s p s = true -> all_s q s = true.
+Proof.
+  intros p q s Hpq. induction s as [|c s IH]; simpl; [reflexivity|].
+  intros H. apply andb_true_iff in H. destruct H as [H1 H2]. rewrite (Hpq c H1), (IH H2). reflexivity.
+Qed.
+
+Lemma all_digits_all_s : forall s : string, all_digits s = all_s is_digit s.
+Proof. induction s as [|c s IH]; simpl; [reflexivity | now rewrite IH]. Qed.
+
+Lemma break_at_some : forall p (s a r : string) (c : ascii),
+  break_at p s = (a, Some (c, r)) ->
+  s = a +++ String c r /\ p c = true /\ all_s (fun x => negb (p x)) a = true.
+Proof.
+  intros p. induction s as [|x s IH]; intros a r c H; simpl in H.
+  - discriminate.
+  - destruct (p x) eqn:Hx.
+    + inversion H; subst. repeat split; assumption.
+    + destruct (break_at p s) as [a' o] eqn:E. inversion H; subst.
+      destruct (IH a' r c eq_refl) as [H1 [H2 H3]]. subst s.
+      repeat split; [assumption|]. simpl. now rewrite Hx, H3.
+Qed.
+
+Lemma break_at_none : forall p (s a : string),
+  break_at p s = (a, None) -> s = a /\ all_s (fun x => negb (p x)) a = true.
+Proof.
+  intros p. induction s as [|x s IH]; intros a H; simpl in H.
+  - inversion H; subst. split; reflexivity.
+  - destruct (p x) eqn:Hx; [discriminate|].
+    destruct (break_at p s) as [a' o] eqn:E. inversion H; subst.
+    destruct (IH a' eq_refl) as [H1 H2]. subst s. split; [reflexivity|]. simpl. now rewrite Hx, H2.
+Qed.
+
+Lemma break_at_app : forall p (a r : string) (c : ascii),
+  all_s (fun x => negb (p x)) a = true -> p c = true ->
+  break_at p (a +++ String c r) = (a, Some (c, r)).
+Proof.
+  intros p. induction a as [|x a IH]; intros r c Ha Hc; simpl in *.
+  - now rewrite Hc.
+  - apply andb_true_iff in Ha. destruct Ha as [Hx Ha].
+    apply negb_true_iff in Hx. rewrite Hx, (IH r c Ha Hc). reflexivity.
+Qed.
+
+Lemma break_at_all : forall p (a : string),
+  all_s (fun x => negb (p x)) a = true -> break_at p a = (a, None).
+Proof.
+  intros p. induction a as [|x a IH]; intros Ha; simpl in *.
+  - reflexivity.
+  - apply andb_true_iff in Ha. destruct Ha as [Hx Ha].
+    apply negb_true_iff in Hx. rewrite Hx, (IH Ha). reflexivity.
+Qed.
+
+(* character facts, by enumeration of the 256 bytes *)
+Ltac by_bytes c := destruct c as [[] [] [] [] [] [] [] []]; try discriminate; try reflexivity.
+
+Lemma digit_not_special : forall c : ascii, is_digit c = true ->
+  is_e c = false /\ is_dot c = false /\ is_e_lower c = false /\ is_idchar c = true /\ is_expch c = false.
+Proof. intros c; by_bytes c; intros _; repeat split. Qed.
+Lemma dot_facts : forall c : ascii, is_dot c = true ->
+  is_e c = false /\ is_digit c = false /\ is_e_lower c = false /\ is_expch c = false.
+Proof. intros c; by_bytes c; intros _; repeat split. Qed.
+Lemma e_lower_facts : forall c : ascii, is_e_lower c = true ->
+  is_e c = true /\ is_digit c = false /\ is_idchar c = true /\ is_expch c = true /\ is_dot c = false.
+Proof. intros c; by_bytes c; intros _; repeat split. Qed.
+Lemma sign_facts : forall c : ascii, is_plus c || is_minus c = true ->
+  is_digit c = false /\ (is_plus c = true \/ (is_plus c = false /\ is_minus c = true)).
+Proof. intros c; by_bytes c; intros _; split; auto. Qed.
+
+Definition plain (c : ascii) : bool := is_digit c || is_dot c.
+
+Lemma plain_no_e : forall s : string, all_s plain s = true ->
+  all_s (fun x => negb (is_e x)) s = true /\ all_s (fun x => negb (is_e_lower x)) s = true.
+Proof.
+  intros s H. split; (eapply all_s_impl; [|exact H]); intros c Hc; unfold plain in Hc;
+  apply orb_true_iff in Hc; destruct Hc as [Hc|Hc].
+  - now destruct (digit_not_special c Hc) as [-> _].
+  - now destruct (dot_facts c Hc) as [-> _].
+  - now destruct (digit_not_special c Hc) as [_ [_ [-> _]]].
+  - now destruct (dot_facts c Hc) as [_ [_ [-> _]]].
+Qed.
+
+Lemma digits_plain : forall s : string, all_digits s = true -> all_s plain s = true.
+Proof.
+  intros s H. rewrite all_digits_all_s in H. eapply all_s_impl; [|exact H].
+  intros c Hc. unfold plain. now rewrite Hc.
+Qed.
+
+Lemma digits_no_dot : forall s : string, all_digits s = true -> all_s (fun x => negb (is_dot x)) s = true.
+Proof.
+  intros s H. rewrite all_digits_all_s in H. eapply all_s_impl; [|exact H].
+  intros c Hc. now destruct (digit_not_special c Hc) as [_ [-> _]].
+Qed.
+
+Lemma ppnum_plain : forall (s : string) (b : bool), all_s plain s = true -> ppnum b s = (s, "").
+Proof.
+  induction s as [|c s IH]; intros b H; simpl in *.
+  - reflexivity.
+  - apply andb_true_iff in H. destruct H as [Hc Hs].
+    assert (E : is_idchar c || is_dot c = true).
+    { unfold plain in Hc. apply orb_true_iff in Hc. destruct Hc as [Hc|Hc].
+      - now destruct (digit_not_special c Hc) as [_ [_ [_ [-> _]]]].
+      - rewrite Hc. apply orb_true_r. }
+    rewrite E. simpl. now rewrite IH.
+Qed.
+
+Lemma ppnum_exp : forall (a ds : string) (c sg : ascii) (b : bool),
+  all_s plain a = true -> is_e_lower c = true -> is_plus sg || is_minus sg = true -> all_digits ds = true ->
+  ppnum b (a +++ String c (String sg ds)) = (a +++ String c (String sg ds), "").
+Proof.
+  induction a as [|x a IH]; intros ds c sg b Ha Hc Hsg Hds.
+  - cbn [String.append ppnum].
+    destruct (e_lower_facts c Hc) as [_ [_ [Hid [Hex _]]]].
+    rewrite Hid, Hex, Hsg. simpl. rewrite (ppnum_digits ds _ Hds), orb_true_r. reflexivity.
+  - cbn [String.append ppnum]. simpl in Ha. apply andb_true_iff in Ha. destruct Ha as [Hx Ha].
+    assert (E : is_idchar x || is_dot x = true).
+    { unfold plain in Hx. apply orb_true_iff in Hx. destruct Hx as [Hx|Hx].
+      - now destruct (digit_not_special x Hx) as [_ [_ [_ [-> _]]]].
+      - rewrite Hx. apply orb_true_r. }
+    rewrite E. simpl. rewrite (IH ds c sg _ Ha Hc Hsg Hds). reflexivity.
+Qed.
+
+Lemma parse_digits_some : forall (s : string) (x : N), all_digits s = true -> exists y, parse_N_acc s x = Some y.
+Proof.
+  induction s as [|c s IH]; intros x H; simpl in *.
+  - eexists; reflexivity.
+  - apply andb_true_iff in H. destruct H as [Hc Hs]. rewrite Hc. apply IH. exact Hs.
+Qed.
+
+Lemma parse_N_digits1 : forall s : string, digits1 s = true -> exists y, parse_N s = Some y.
+Proof.
+  intros s H. unfold digits1 in H. apply andb_true_iff in H. destruct H as [Hn Hd].
+  destruct s; [discriminate|]. unfold parse_N. apply parse_digits_some. exact Hd.
+Qed.
+
+Lemma not_digits_app : forall (a r : string) (c : ascii), is_digit c = false -> all_digits (a +++ String c r) = false.
+Proof. intros a r c Hc. rewrite all_digits_app. simpl. rewrite Hc. apply andb_false_r. Qed.
+
+Lemma int_value_not_digits : forall s : string, all_digits s = false -> int_value s = None.
+Proof.
+  intros s H. unfold int_value, digits1. rewrite H, andb_false_r. now destruct (leading_zero s).
+Qed.
+
+(* the mantissa part:  digits [. digits] *)
+Definition py_mant (m : string) : Prop :=
+  (exists ip c fp, m = ip +++ String c fp /\ is_dot c = true /\ digits1 ip = true /\ digits1 fp = true)
+  \/ digits1 m = true.
+
+Lemma signif_of_py_mant : forall m : string, py_mant m -> exists v, signif_value m true = Some v.
+Proof.
+  intros m [[ip [c [fp [-> [Hc [Hip Hfp]]]]]] | Hm]; unfold signif_value.
+  - unfold digits1 in *. apply andb_true_iff in Hip, Hfp. destruct Hip as [Hn1 Hd1]. destruct Hfp as [Hn2 Hd2].
+    rewrite (break_at_app is_dot ip fp c (digits_no_dot ip Hd1) Hc), Hd1, Hd2, Hn1. simpl.
+    destruct (parse_digits_some (ip +++ fp) 0%N) as [y Hy]; [now rewrite all_digits_app, Hd1, Hd2|].
+    rewrite Hy. eexists; reflexivity.
+  - pose proof Hm as Hm'. unfold digits1 in Hm. apply andb_true_iff in Hm. destruct Hm as [Hn Hd].
+    rewrite (break_at_all is_dot m (digits_no_dot m Hd)), Hn, Hd. simpl.
+    destruct (parse_N_digits1 m Hm') as [y ->]. eexists; reflexivity.
+Qed.
+
+Lemma py_mant_plain : forall m : string, py_mant m -> all_s plain m = true /\ starts_number m = true.
+Proof.
+  intros m [[ip [c [fp [-> [Hc [Hip Hfp]]]]]] | Hm]; unfold digits1 in *.
+  - apply andb_true_iff in Hip, Hfp. destruct Hip as [Hn1 Hd1]. destruct Hfp as [Hn2 Hd2]. split.
+    + rewrite all_s_app. simpl. rewrite (digits_plain ip Hd1), (digits_plain fp Hd2). unfold plain. rewrite Hc, orb_true_r. reflexivity.
+    + destruct ip as [|d ip]; [discriminate|]. simpl in *. apply andb_true_iff in Hd1. destruct Hd1 as [-> _]. reflexivity.
+  - apply andb_true_iff in Hm. destruct Hm as [Hn Hd]. split; [now apply digits_plain|].
+    destruct m as [|d m]; [discriminate|]. simpl in *. apply andb_true_iff in Hd. destruct Hd as [-> _]. reflexivity.
+Qed.
+
+Lemma starts_number_app : forall a b : string, starts_number a = true -> all_s plain a = true -> starts_number (a +++ b) = true.
+Proof.
+  intros a b H Hp. destruct a as [|c a]; [discriminate|]. simpl in *.
+  destruct (is_digit c) eqn:Hd; [reflexivity|]. simpl in *.
+  destruct (is_dot c); [|discriminate]. simpl in *.
+  destruct a as [|d a]; [discriminate|]. simpl. exact H.
+Qed.
+
+(* every finite repr body is one C++ floating literal token, not an integer literal *)
+Lemma py_body_is_cpp_float : forall s : string, py_finite_body s = true ->
+  (exists v, float_value s = Some v) /\ int_value s = None /\ ppnum false s = (s, "") /\ starts_number s = true.
+Proof.
+  intros s H. unfold py_finite_body in H.
+  destruct (break_at is_e_lower s) as [m [[c ex]|]] eqn:Eb.
+  - (* exponent form *)
+    apply andb_true_iff in H. destruct H as [Hex Hm].
+    destruct (break_at_some _ _ _ _ _ Eb) as [-> [Hc _]].
+    assert (Hpm : py_mant m).
+    { destruct (break_at is_dot m) as [ip [[d fp]|]] eqn:Ed.
+      - left. destruct (break_at_some _ _ _ _ _ Ed) as [-> [Hd _]].
+        apply andb_true_iff in Hm. destruct Hm. exists ip, d, fp. repeat split; assumption.
+      - right. destruct (break_at_none _ _ _ Ed) as [<- _]. exact Hm. }
+    destruct (py_mant_plain m Hpm) as [Hplain Hstart].
+    destruct (plain_no_e m Hplain) as [Hne _].
+    destruct (e_lower_facts c Hc) as [Hce [Hcd _]].
+    unfold py_exp in Hex. destruct ex as [|sg ds]; [discriminate|].
+    apply andb_true_iff in Hex. destruct Hex as [Hex Hlen]. apply andb_true_iff in Hex. destruct Hex as [Hsg Hds].
+    assert (Hds1 : digits1 ds = true).
+    { unfold digits1. rewrite Hds, andb_true_r. destruct ds; [discriminate | reflexivity]. }
+    repeat split.
+    + unfold float_value. rewrite (break_at_app is_e m (String sg ds) c Hne Hce).
+      destruct (signif_of_py_mant m Hpm) as [[mv e1] ->].
+      destruct (parse_N_digits1 ds Hds1) as [y Hy].
+      unfold exp_value. destruct (sign_facts sg Hsg) as [_ [Hp | [Hp Hmi]]].
+      * rewrite Hp, Hds1, Hy. eexists; reflexivity.
+      * rewrite Hp, Hmi, Hds1, Hy. eexists; reflexivity.
+    + apply int_value_not_digits. apply not_digits_app. exact Hcd.
+    + apply ppnum_exp; assumption.
+    + apply starts_number_app; assumption.
+  - (* plain form: digits . digits *)
+    destruct (break_at_none _ _ _ Eb) as [<- _].
+    destruct (break_at is_dot s) as [ip [[d fp]|]] eqn:Ed; [|discriminate].
+    apply andb_true_iff in H. destruct H as [Hip Hfp].
+    destruct (break_at_some _ _ _ _ _ Ed) as [Hs [Hd _]].
+    assert (Hpm : py_mant s) by (left; exists ip, d, fp; repeat split; assumption).
+    destruct (py_mant_plain s Hpm) as [Hplain Hstart].
+    destruct (plain_no_e s Hplain) as [Hne _].
+    repeat split.
+    + unfold float_value. rewrite (break_at_all is_e s Hne).
+      unfold signif_value. rewrite Ed.
+      unfold digits1 in Hip, Hfp. apply andb_true_iff in Hip, Hfp. destruct Hip as [Hn1 Hd1]. destruct Hfp as [Hn2 Hd2].
+      rewrite Hd1, Hd2, Hn1. simpl.
+      destruct (parse_digits_some (ip +++ fp) 0%N) as [y Hy]; [now rewrite all_digits_app, Hd1, Hd2|].
+      rewrite Hy. eexists; reflexivity.
+    + apply int_value_not_digits. rewrite Hs. apply not_digits_app. now destruct (dot_facts d Hd) as [_ [-> _]].
+    + apply ppnum_plain. exact Hplain.
+    + exact Hstart.
+Qed.
+
+Lemma starts_number_first : forall s : string, starts_number s = true ->
+  exists c r, s = String c r /\ (code c =? 34)%nat = false /\ is_minus c = false.
+Proof.
+  intros s H. destruct s as [|c r]; [discriminate|]. exists c, r. split; [reflexivity|].
+  simpl in H. revert H. by_bytes c; intros _; split; reflexivity.
+Qed.
+
+Lemma lex_py_body : forall (s : string) (neg : bool), py_finite_body s = true ->
+  exists m e, float_value s = Some (m, e) /\
+    lex_prefix (if neg then String "-"%char s else s) = Some (LFloat neg m e, "").
+Proof.
+  intros s neg H. destruct (py_body_is_cpp_float s H) as [[[m e] Hv] [Hi [Hpp Hst]]].
+  exists m, e. split; [exact Hv|].
+  destruct neg.
+  - unfold lex_prefix. change (code "-"%char =? 34)%nat with false. change (is_minus "-"%char) with true. cbv iota.
+    rewrite Hst, Hpp. simpl fst. simpl snd. unfold number_value. rewrite Hi, Hv. reflexivity.
+  - destruct (starts_number_first s Hst) as [c [r [E [H1 H2]]]].
+    unfold lex_prefix. rewrite E at 1. rewrite H1, H2, Hst, Hpp. simpl fst. simpl snd.
+    unfold number_value. rewrite Hi, Hv. reflexivity.
+Qed.
+
+Lemma strip_minus_spec : forall t : string,
+  t = (if fst (strip_minus t) then String "-"%char (snd (strip_minus t)) else snd (strip_minus t)).
+Proof.
+  intros t. destruct t as [|c r]; [reflexivity|]. unfold strip_minus.
+  destruct (is_minus c) eqn:E; [|reflexivity]. simpl. f_equal.
+  revert E. by_bytes c.
+Qed.
+
+Lemma finite_not_nonfinite : forall t : string, py_float_finite t = true -> nonfinite_repr t = false.
+Proof.
+  intros t H. unfold nonfinite_repr.
+  destruct (String.eqb t "inf") eqn:E1; [apply String.eqb_eq in E1; subst; discriminate|].
+  destruct (String.eqb t "-inf") eqn:E2; [apply String.eqb_eq in E2; subst; discriminate|].
+  destruct (String.eqb t "nan") eqn:E3; [apply String.eqb_eq in E3; subst; discriminate|].
+  reflexivity.
+Qed.
+
+(* visit_Constant on a finite float: the repr text goes out unchanged, it is one C++ floating literal,
+   the sign is the sign of the repr *)
+Lemma render_float_ok : forall t : string, py_float_finite t = true ->
+  render (CFloat t) = OK (t, TDouble) /\
+  cpp_float_lit (snd (strip_minus t)) = true /\
+  exists m e, float_value (snd (strip_minus t)) = Some (m, e) /\ lex t = Some (LFloat (fst (strip_minus t)) m e).
+Proof.
+  intros t H. split; [|split].
+  - unfold render. now rewrite (finite_not_nonfinite t H).
+  - unfold py_float_finite in H. destruct (py_body_is_cpp_float _ H) as [[v Hv] _].
+    unfold cpp_float_lit. now rewrite Hv.
+  - unfold py_float_finite in H.
+    destruct (lex_py_body _ (fst (strip_minus t)) H) as [m [e [Hv Hl]]].
+    exists m, e. split; [exact Hv|]. unfold lex. rewrite (strip_minus_spec t) at 1. rewrite Hl. reflexivity.
+Qed.
+
+Lemma render_float_nonfinite : forall t : string, nonfinite_repr t = true -> render (CFloat t) = Error ErrValue.
+Proof. intros t H. unfold render. now rewrite H. Qed.
+
+Lemma py_float_repr_cases : forall t : string, py_float_repr t = true ->
+  (py_float_finite t = true /\ nonfinite_repr t = false) \/ nonfinite_repr t = true.
+Proof.
+  intros t H. unfold py_float_repr in H. apply orb_true_iff in H. destruct H as [H|H].
+  - left. split; [exact H | now apply finite_not_nonfinite].
+  - now right.
+Qed.
+
+(* before the fix inf / nan went out as identifiers *)
+Lemma render_v0_float_refuted :
+  exists t : string, py_float_repr t = true /\ render_v0 (CFloat t) = OK (t, TDouble) /\ lex t = None.
+Proof. exists "inf". repeat split. Qed.
